@@ -80,24 +80,8 @@ MUTANTS = [
     ("c08-sync-unregister-not-awaited", "C08", "_core.py",
      "            await_awaitable(self.async_unregister_service(info)),\n            self.loop,",
      "            self.async_unregister_service(info),\n            self.loop,"),
-    ("c09-default-host-before-rename", "C09", "_core.py",
-     "        await self.async_check_service(info, allow_name_change, cooperating_responders, strict)\n",
-     "        info.set_server_if_missing()\n"
-     "        await self.async_check_service(info, allow_name_change, cooperating_responders, strict)\n"),
-    ("c18-only-last-added-record-loaded", "C18", "_services/info.py",
-     "                cache.get_all_by_details(self._name, type_, _CLASS_IN),\n",
-     "                cache.get_all_by_details(self._name, type_, _CLASS_IN)[-1:],\n"),
-    ("c18-no-cache-reload-after-wakeup", "C18", "_services/info.py",
-     "                    self._load_from_cache(zc, now)\n", "                    pass\n"),
-    ("c10-schedule-keyed-by-instance-only", "C10", "_services/browser.py",
-     "        self._next_scheduled_for_alias[(scheduled_query.name.lower(), scheduled_query.alias)] = scheduled_query",
-     "        self._next_scheduled_for_alias[('', scheduled_query.alias)] = scheduled_query"),
-    ("c09-conflict-test-compares-spelling", "C09", "_cache.py",
-     "                and cast(DNSPointer, record).alias_key == alias_key", "                and cast(DNSPointer, record).alias == alias"),
-    ("c19-dollar-anchor", "C19", "const.py",
-     "_HAS_ONLY_A_TO_Z_NUM_HYPHEN = re.compile(r'^[A-Za-z0-9\\-]+\\Z')", "_HAS_ONLY_A_TO_Z_NUM_HYPHEN = re.compile(r'^[A-Za-z0-9\\-]+$')"),
-    ("c19-surrogate-not-contained", "C19", "_utils/name.py",
-     "        except UnicodeEncodeError as ex:", "        except ZeroDivisionError as ex:"),
+    # (moving set_server_if_missing back in front of the conflict check became equivalent once the name setter moves a
+    #  defaulted host name along with a rename, 1e0a600)
     ("c09-defaulted-host-does-not-follow-rename", "C09", "_services/info.py",
      "        if self.server_key is not None and self.server_key == self.key:", "        if False:"),
     ("c10-kept-query-keeps-old-ttl", "C10", "_services/browser.py",
